@@ -27,6 +27,7 @@ def run(ctx):
     ctx.anchor(ctx.fn1('Oomd::Engine::PrekillHook::canRunOnCgroup'), 'pattern')
     ctx.anchor(ctx.fn1('Oomd::BaseKillPlugin::pastPrekillHookTimeout'), 'ctx')
     P = ctx.prog
+    ruleset_wiring(ctx, "C07", ['prekill_hook_timeout'])
     rts = ctx.fn1("Oomd::BaseKillPlugin::resumeTryingToKillSomething")
     rfp = ctx.fn1("Oomd::BaseKillPlugin::resumeFromPrekillHook")
     krun = ctx.fn1("Oomd::BaseKillPlugin::run")
